@@ -278,7 +278,7 @@ class Exec:
                 o += sz
             return
         if isinstance(ty, FloatTy):
-            if self.dom.name == 'concrete':
+            if self.dom.name in ('concrete', 'fp') and self.dom.is_conc(val):
                 self.write_bytes(st, addr, self.dom.to_bits(val, ty.bits).to_bytes(n, 'little'))
             else:
                 st.sym[addr] = (n, 'f', val)
@@ -784,6 +784,7 @@ class Exec:
         if isinstance(t, FloatTy):
             return z3.If(c, self.dom.z(a), self.dom.z(b))
         bits = t.bits if isinstance(t, IntTy) else 64
+        if isinstance(a, FBits) and isinstance(b, FBits): return FBits(z3.If(c, self.dom.z(a.val), self.dom.z(b.val)), a.bits)
         if isinstance(a, (Packed, FBits)) or isinstance(b, (Packed, FBits)): raise Unsupported('select of packed values')
         A = z3.BitVecVal(a, bits) if isinstance(a, int) else a
         B = z3.BitVecVal(b, bits) if isinstance(b, int) else b
@@ -806,7 +807,7 @@ class Exec:
         if self.feasible(st, out): raise Unsupported('integer part of a symbolic real may lie outside the stated range [%d,%d]' % (rlo, rhi))
         return alts
     def fp_to_int(self, st, v, signed, bits):
-        if self.dom.name == 'concrete':
+        if self.dom.name in ('concrete', 'fp') and self.dom.is_conc(v):
             if np.isnan(v) or np.isinf(v): return 0
             iv = int(v)
             if not signed and iv < 0: iv = int(np.float64(v).astype(np.int64))   # what x86 cvttss2si does in practice
@@ -872,13 +873,13 @@ class Exec:
             k = name.split('.')[1]; bits = 32 if name.endswith('f32') else 64
             if k == 'trunc':
                 v = args[0]
-                if self.dom.name == 'concrete': return np.trunc(v)
+                if self.dom.name in ('concrete', 'fp') and self.dom.is_conc(v): return np.trunc(v)
                 if isinstance(v, Fraction): return Fraction(int(v))
                 raise Unsupported('symbolic trunc')
             return self.libm(st, k + ('f' if bits == 32 else ''), args)
         if name.startswith(('llvm.minnum', 'llvm.maxnum')):
             a, b = args; isn = name.startswith('llvm.minnum')
-            if self.dom.name == 'concrete': return (np.fmin if isn else np.fmax)(a, b)
+            if self.dom.name in ('concrete', 'fp') and self.dom.is_conc(a) and self.dom.is_conc(b): return (np.fmin if isn else np.fmax)(a, b)
             c = self.dom.cmp('olt' if isn else 'ogt', a, b)
             if isinstance(c, int): return a if c else b
             return z3.If(c, self.dom.z(a), self.dom.z(b))
@@ -950,7 +951,7 @@ def ext_new(ex, st, fr, args, ins):
 def ext_free(ex, st, fr, args, ins): return None
 def ext_modff(ex, st, fr, args, ins):
     x, ip = args
-    if ex.dom.name == 'concrete':
+    if ex.dom.name in ('concrete', 'fp') and ex.dom.is_conc(x):
         f, i = np.modf(x); ex.store(st, ip, FloatTy(32), np.float32(i)); return np.float32(f)
     if isinstance(x, Fraction):
         i = Fraction(int(x)); ex.store(st, ip, FloatTy(32), i); return x - i
@@ -1003,3 +1004,80 @@ DEFAULT_EXT = {'_Znwm': ext_new, '_Znam': ext_new, '_ZdlPv': ext_free, '_ZdaPv':
                '_ZSt19__throw_logic_errorPKc': ext_pathend('throw logic_error'), '_ZSt28__throw_bad_array_new_lengthv': ext_pathend('throw bad_array_new_length'),
                '_ZSt25__throw_bad_function_callv': ext_pathend('throw bad_function_call'),
                }
+
+# ------------------------------------------------------------------ IEEE domain (z3 FP theory) for bit-exact claims on short expressions
+class FPDom:
+    """concrete values are numpy floats (IEEE, via numpy); symbolic values are z3 FP terms.  fmuladd is evaluated unfused."""
+    name = 'fp'
+    RM = z3.RNE()
+    def __init__(s): s.c = ConcreteDom()
+    def sort(s, bits): return z3.Float32() if bits == 32 else z3.Float64()
+    def const(s, x, bits): return s.c.const(x, bits)
+    def from_bits(s, v, bits): return s.c.from_bits(v, bits)
+    def to_bits(s, x, bits):
+        if s.is_conc(x): return s.c.to_bits(x, bits)
+        raise Unsupported('symbolic fp -> bits (use FBits)')
+    def is_conc(s, x): return isinstance(x, (np.floating, float))
+    def z(s, x, bits=32):
+        if s.is_conc(x):
+            bits = 32 if isinstance(x, np.float32) else 64
+            return z3.fpBVToFP(z3.BitVecVal(s.c.to_bits(x, bits), bits), s.sort(bits))
+        return x
+    def bin(s, op, a, b, bits):
+        if s.is_conc(a) and s.is_conc(b): return s.c.bin(op, a, b, bits)
+        A, B = s.z(a, bits), s.z(b, bits)
+        return {'fadd': lambda: z3.fpAdd(s.RM, A, B), 'fsub': lambda: z3.fpSub(s.RM, A, B), 'fmul': lambda: z3.fpMul(s.RM, A, B), 'fdiv': lambda: z3.fpDiv(s.RM, A, B)}[op]()
+    def neg(s, a): return -a if s.is_conc(a) else z3.fpNeg(a)
+    def cmp(s, pred, a, b):
+        if s.is_conc(a) and s.is_conc(b): return s.c.cmp(pred, a, b)
+        A, B = s.z(a), s.z(b)
+        un = z3.Or(z3.fpIsNaN(A), z3.fpIsNaN(B))
+        base = {'eq': z3.fpEQ(A, B), 'gt': z3.fpGT(A, B), 'ge': z3.fpGEQ(A, B), 'lt': z3.fpLT(A, B), 'le': z3.fpLEQ(A, B), 'ne': z3.Not(z3.fpEQ(A, B))}
+        if pred == 'uno': return un
+        if pred == 'ord': return z3.Not(un)
+        if pred == 'true': return 1
+        if pred == 'false': return 0
+        p = pred[1:]
+        if pred[0] == 'o': return z3.And(z3.Not(un), base[p])
+        return z3.Or(un, base[p])
+    def conv(s, a, frm, to):
+        if s.is_conc(a): return s.c.conv(a, frm, to)
+        return z3.fpToFP(s.RM, a, s.sort(to))
+    def from_int(s, v, signed, ibits, bits):
+        if isinstance(v, int): return s.c.from_int(v, signed, ibits, bits)
+        return z3.fpToFP(s.RM, v, s.sort(bits)) if signed else z3.fpToFPUnsigned(s.RM, v, s.sort(bits))
+    def fn(s, name, args, bits):
+        if all(s.is_conc(a) for a in args): return s.c.fn(name, args, bits)
+        base = name[:-1] if name.endswith('f') else name
+        if base == 'fabs': return z3.fpAbs(s.z(args[0]))
+        if base == 'sqrt': return z3.fpSqrt(s.RM, s.z(args[0]))
+        raise Unsupported('symbolic %s in FP domain' % name)
+
+class EpsDom(RealDom):
+    """reals with the standard rounding model: every inexact float32 operation returns exact*(1+e)+a, |e| <= 2^-24, |a| <= 2^-149 (mul/div only);
+    concrete operands are rounded exactly like IEEE (via numpy)."""
+    name = 'eps'
+    def __init__(s):
+        super().__init__(); s.eps = []; s.abs = []
+    def _round(s, x, op):
+        e = z3.Real('eps%d' % len(s.eps)); s.eps.append(e)
+        r = x * (1 + e)
+        if op in ('fmul', 'fdiv'):
+            a = z3.Real('uf%d' % len(s.abs)); s.abs.append(a); r = r + a
+        return r
+    def constraints(s):
+        u = z3.RealVal(str(Fraction(1, 2**24))); t = z3.RealVal(str(Fraction(1, 2**149)))
+        return [c for e in s.eps for c in (e >= -u, e <= u)] + [c for a in s.abs for c in (a >= -t, a <= t)]
+    @staticmethod
+    def _pow2(x): return isinstance(x, Fraction) and x != 0 and (abs(x).numerator & (abs(x).numerator - 1)) == 0 and (abs(x).denominator & (abs(x).denominator - 1)) == 0
+    def bin(s, op, a, b, bits):
+        if isinstance(a, Fraction) and isinstance(b, Fraction):
+            r = RealDom.bin(s, op, a, b, bits)
+            return Fraction(float(np.float32(float(r)))) if bits == 32 else Fraction(float(r))
+        r = RealDom.bin(s, op, a, b, bits)
+        if isinstance(r, Fraction): return r
+        # exact cases: x*0, x*1, x+0 are folded by RealDom; scaling by a power of two is exact (up to underflow)
+        if op in ('fmul', 'fdiv') and (s._pow2(a) and op == 'fmul' or s._pow2(b)): return r
+        if (op == 'fmul' and ((isinstance(a, Fraction) and a in (0, 1)) or (isinstance(b, Fraction) and b in (0, 1)))): return r
+        if op in ('fadd', 'fsub') and ((isinstance(a, Fraction) and a == 0) or (isinstance(b, Fraction) and b == 0)): return r
+        return s._round(r, op)
